@@ -83,7 +83,9 @@ Handle(e) ==
                s1 == [s EXCEPT !.front = e.cells, !.fw = e.pw, !.fh = e.ph]
            IN <<b1, s1,
                 FrontDevs(cfg, b1, s, e)
-                \cup (IF ~s.curknown THEN {}
+                \cup (IF ~s.curknown THEN      \* after SetSize the position is the simulator's business, but a visible cursor is on the screen
+                           (IF e.cursor[3] /\ ~(e.cursor[1] >= 0 /\ e.cursor[2] >= 0 /\ e.cursor[1] < b1.w /\ e.cursor[2] < b1.h)
+                            THEN {Dev("C18.cursor", "visible_outside_the_screen", e.cursor)} ELSE {})
                       ELSE IF s.cur = <<-2, -2>> THEN       \* hidden: only "not visible" is required
                            (IF e.cursor[3] THEN {Dev("C18.cursor", "visible_after_hide", e.cursor)} ELSE {})
                       ELSE LET inr == s.cur[1] >= 0 /\ s.cur[2] >= 0 /\ s.cur[1] < b1.w /\ s.cur[2] < b1.h IN
